@@ -2,22 +2,29 @@
 //
 // Engine E4 (DESIGN.md 2.5, section 4/C11): bounded exhaustive enumeration on the real rlp package
 // and the real consensus types, compared with zzverif/ref/refrlp (a strict decoder/encoder written
-// from the specification).
+// from the specification). Phases (engine_test.go builds them as units of work for worker processes):
 //
-//	phase bytes     every string of length <= 5 (thorough 6) over an 18-byte boundary alphabet, plus
-//	                the structured long-form header family  -> DecodeBytes(interface{}), Stream
-//	                (Decode loop, manual Kind/List/Bytes/ListEnd walk, Raw, second reader flavour),
-//	                Split/SplitString/SplitList/CountValues: accept/reject = refrlp, decoded tree =
-//	                refrlp tree, re-encoding = input, no panic.
-//	phase targets   every such string decoded into every typed target: error or re-encoding = input.
-//	phase typed     per-type value lattices, every ordered pair of (kind,value) as consecutive struct
-//	                fields (2-field struct and 3-field struct with a sentinel) and as consecutive
-//	                slice / array elements: encoding = refrlp model, decode(encode(v)) = v.
-//	phase pairs     every 2-field struct type as decoding target for every wrapped short payload.
-//	phase consensus Header, Transaction, Block (with uncles), Receipt (consensus + storage format),
-//	                Log (both), state.Account: lattice round trips, every truncation, every
-//	                single-byte alteration: error or byte-identical re-encoding.
-//	phase alloc     single goroutine, runtime.MemStats.TotalAlloc deltas with generous bounds.
+//	typed      per-type value lattices (typed_test.go): every value alone, every ordered pair of
+//	           (kind,value) as consecutive struct fields (struct{A;B} and struct{A;B;Z} with a sentinel)
+//	           and as consecutive slice / array elements: encoding = refrlp model of the value,
+//	           decode(encode(v)) = v through DecodeBytes, Stream.Decode and a buffered limited stream.
+//	consensus  Header, Transaction, Block (with uncles), Body, Receipt (consensus + storage format), Log
+//	           (both), state.Account (consensus_test.go): lattice round trips against a model of the wire
+//	           format, every truncation, one extension, every single-byte alteration (3 XOR masks quick,
+//	           all 255 values thorough): error or byte-identical re-encoding.
+//	alloc      runtime.MemStats.TotalAlloc deltas of single decoding calls (a worker checks on one
+//	           goroutine): every byte string up to length 5, the long-form family with every typed
+//	           target, consensus encodings with length-prefix alterations; bound 64 KiB + 128*len(input).
+//	bytes      every string of length <= 5 (thorough 6) over an 18-byte boundary alphabet ->
+//	           DecodeBytes(interface{}), Stream (Decode loop until EOF, manual Kind/List/Bytes/ListEnd
+//	           walk, Raw, explicit limit + bufio), Split/SplitString/SplitList/CountValues: accept/reject
+//	           = refrlp, decoded tree = refrlp tree, re-encoding = input, no panic; then the string is
+//	           decoded into every typed target (DecodeBytes; Stream.Decode too for strings shorter than
+//	           the bound): error, or the re-encoding equals the (consumed) input.
+//	family     the structured long-form header family (every spelling of the length prefix for payload
+//	           lengths 0..65536, claimed length off by one, payload cut / extended, alone and inside a
+//	           list, announced sizes up to 2^64-1) through the same checks.
+//	pairs      every 2-field struct type as decoding target of every list with a short payload.
 package c11
 
 import (
